@@ -9,7 +9,7 @@ for d in sorted(os.listdir('/verif/seeded')):
     c = m.get('check', {})
     if re.match(r'^C\d+_r\d+$', d):
         what = (m.get('summary') or m.get('description') or m.get('what') or '')[:230].replace('|', '/').replace('\n', ' ')
-        rrows.append('| %s | %s | %s |' % (d, what, 'exit 0 (no alarm)' if c.get('exit') == 0 else '**exit %s**' % c.get('exit')))
+        rrows.append('| %s | %s | %s |' % (d, what, 'exit 0 (no alarm)' if c.get('exit') == 0 else (('superseded: ' + c.get('note', '')) if c.get('stale') else '**exit %s**' % c.get('exit'))))
         continue
     fv = c.get('first_violation', '')
     mm = re.search(r'violation: (.+?) / (\S+) input=', fv)
